@@ -494,6 +494,29 @@ func (c13) Run(plan interface{}, schedSeed uint64, replay []simrt.Choice, lenien
 			v.Violate("late-return", "cancel: a receive goes on consuming packages after its context was cancelled", "NextPackageUntil (callback wants every package, %d packages arriving, queue size %d, %s context cancelled): the callback was handed %d more packages after the cancellation before the call returned", p.NPkgs, p.QueueSize, p.CancelWhat, res.afterCancel)
 		}
 	}
+	if p.Kind == "close-send" && p.Logical && v.Class == "" {
+		// the wire of the logical channel: once its teardown has been written nothing follows for that channel - a send
+		// that overlaps the Close either goes out in front of the teardown or is refused
+		tornAt := -1
+		var chanID uint16
+		for i, w := range pr.Conn.Wrote {
+			if len(w) < 8 {
+				continue
+			}
+			typ, id := w[0], uint16(w[4])<<8|uint16(w[5])
+			if tornAt < 0 && typ == peer.BufClose && id != 0 {
+				tornAt, chanID = i, id
+				continue
+			}
+			if tornAt >= 0 && id == chanID && typ != peer.BufSetup {
+				v.Violate("packet-after-close", "close-send: a packet of the channel was written after its teardown", "channel %d: its teardown was write #%d of the connection; write #%d is another packet of that channel (type %d, %d bytes) - a send that overlapped the Close went out behind the teardown", chanID, tornAt, i, typ, len(w))
+				break
+			}
+		}
+		if tornAt >= 0 {
+			v.Probe("close-send:teardown-on-the-wire")
+		}
+	}
 	if p.Kind == "cancel-queue" && res.sendDone {
 		switch {
 		case res.sendErr == nil:
@@ -1223,5 +1246,5 @@ func c13CloseRecv(p *c13Plan, res *c13Res, conn *tds.Conn, ch *tds.Channel) {
 
 // RequiredProbes: a batch in which one of these never fired explored nothing of that kind (exit 2, not a pass).
 func (c13) RequiredProbes() []string {
-	return []string{"landed-inside-call", "kind:cancel", "kind:close-queue", "kind:close-send", "kind:close-recv", "kind:closed-calls", "kind:conn-close", "send-with-cancelled-context", "send-cancelled-while-waiting-for-another-sender", "cancel-while-packets-keep-arriving", "conn-closed-and-judged"}
+	return []string{"landed-inside-call", "kind:cancel", "kind:close-queue", "kind:close-send", "close-send:teardown-on-the-wire", "kind:close-recv", "kind:closed-calls", "kind:conn-close", "send-with-cancelled-context", "send-cancelled-while-waiting-for-another-sender", "cancel-while-packets-keep-arriving", "conn-closed-and-judged"}
 }
